@@ -13,7 +13,7 @@ pub fn to_filters(fs: &Value) -> Vec<BodyFilter> {
             BodyFilter::Text(TextBodyFilter { action: match f["action"].as_str().unwrap() { "append_text" => TextAction::Append, "prepend_text" => TextAction::Prepend, _ => TextAction::Replace },
                 content: f["content"].as_str().unwrap().to_string(), id: None, target_hash: None })
         } else {
-            BodyFilter::HTML(HTMLBodyFilter { action: f["action"].as_str().unwrap().to_string(), value: f["value"].as_str().unwrap().to_string(), inner_value: None,
+            BodyFilter::HTML(HTMLBodyFilter { action: f["action"].as_str().unwrap().to_string(), value: f["value"].as_str().unwrap().to_string(), inner_value: f["inner"].as_str().map(|s| s.to_string()),
                 element_tree: f["tree"].as_array().unwrap().iter().map(|x| x.as_str().unwrap().to_string()).collect(),
                 css_selector: f["css"].as_str().map(|s| s.to_string()), id: None, target_hash: None })
         }
@@ -64,8 +64,9 @@ pub fn gen_body_and_filters(rng: &mut Rng) -> (Vec<u8>, Vec<Value>) {
 
 pub fn run_case(id: usize, input: &Value) {
     let body: Vec<u8> = input["body"].as_array().unwrap().iter().map(|x| x.as_u64().unwrap() as u8).collect();
-    let cuts: Vec<usize> = input["cuts"].as_array().unwrap().iter().map(|x| x.as_u64().unwrap() as usize).collect();
-    let chunks = split(&body, &cuts);
+    let cuts: Vec<usize> = input["cuts"].as_array().map(|a| a.iter().map(|x| x.as_u64().unwrap() as usize).collect()).unwrap_or_default();
+    // "cuts": "none" = the stream is ended without any chunk (only possible for an empty body)
+    let chunks = if input["cuts"] == "none" && body.is_empty() { Vec::new() } else { split(&body, &cuts) };
     let headers: Vec<Header> = match input["ct"].as_str() { None => vec![], Some(ct) => vec![Header { name: "Content-Type".into(), value: ct.into() }] };
     let ctok = match input["ct"].as_str() { None => true, Some(ct) => ct.to_lowercase().contains("text/html") };
     let filters = input["filters"].clone();
@@ -156,7 +157,7 @@ fn gen_filler(rng: &mut Rng, depth: usize) -> Node {
     match rng.below(if depth == 0 { 6 } else { 9 }) {
         0 | 1 => Node::Text(rng.pick(TEXTS).to_string()),
         2 => Node::Comment(rng.pick(COMMENTS).to_string()),
-        3 => { let tag = *rng.pick(&["script", "style", "script", "style", "title", "textarea", "noscript", "xmp", "iframe"]); let txt = if tag == "script" || tag == "style" { *rng.pick(SCRIPTS) } else { *rng.pick(RAWTEXTS) }; Node::Raw(tag.into(), txt.to_string()) }
+        3 => { let tag = *rng.pick(&["script", "style", "script", "style", "title", "textarea", "noscript", "xmp", "iframe", "title\n", "script ", "textarea\t", "TITLE"]); let txt = if tag.trim() == "script" || tag == "style" { *rng.pick(SCRIPTS) } else { *rng.pick(RAWTEXTS) }; Node::Raw(tag.into(), txt.to_string()) }
         4 => Node::Void(rng.pick(&["br", "img", "meta", "hr"]).to_string(), rng.pick(ATTRS).to_string()),
         5 => Node::SelfClosing(rng.pick(&["x-a", "use"]).to_string(), rng.pick(ATTRS).to_string()),
         _ => { let n = rng.below(3); Node::Elem(rng.pick(FILLER_TAGS).to_string(), rng.pick(ATTRS).to_string(), (0..n).map(|_| gen_filler(rng, depth - 1)).collect()) }
@@ -258,19 +259,25 @@ pub fn generate(prop: &str, seed: u64, thorough: bool) -> Vec<Value> {
                 let (extra, form) = if action == "replace" { (rng.below(3), if rng.chance(1, 5) && !with_css { 1 } else { 0 }) } else { (0, 0) };
                 let (doc, path) = gen_doc(&mut rng, depth, ch, extra, form);
                 let value = "<b>V</b>".to_string();
-                let css: Value = if with_css { json!("em.mark") } else if rng.chance(1, 2) { Value::Null } else { json!("") };
+                // a selector that mentions body can never match: the selector is evaluated on the target's own fragment
+                let body_sel = with_css && rng.chance(1, 4);
+                let has_mark_eff = has_mark && !body_sel;
+                let css: Value = if body_sel { json!("body em.mark") } else if with_css { json!("em.mark") } else if rng.chance(1, 2) { Value::Null } else { json!("") };
+                // inner_value only feeds the unit traces (value_computed_by_unit): the text inserted is always `value`
+                let inner: Value = if rng.chance(1, 3) { json!("<s>INNER</s>") } else { Value::Null };
+                let outer_value = value.clone();
                 // with a selector every sibling target is judged separately; extra siblings never contain the mark
                 let body = serialize_root(&doc);
                 let expected = if with_css && extra > 0 {
                     // only the first sibling may contain the mark
-                    edit_first_only(&doc, &path, action, &value, has_mark)
+                    edit_first_only(&doc, &path, action, &value, has_mark_eff)
                 } else {
-                    serialize_root(&edit(&doc, &path, 0, action, &value, if with_css { Some(has_mark) } else { None }))
+                    serialize_root(&edit(&doc, &path, 0, action, &value, if with_css { Some(has_mark_eff) } else { None }))
                 };
                 let cuts = if rng.chance(1, 3) { random_cuts(&mut rng, body.len()) } else { vec![] };
                 out.push(json!({"body": bytes_json(body.as_bytes()), "cuts": cuts, "ct": if rng.chance(1, 2) { json!("text/html; charset=utf-8") } else { Value::Null },
-                    "filters": [{"kind": "html", "action": action, "value": value, "tree": path, "css": css}], "mode": 3, "values": [], "expect": bytes_json(expected.as_bytes()),
-                    "tags": [format!("depth:{}", depth), format!("extra-targets:{}", extra), if with_css { if has_mark { "css:match" } else { "css:nomatch" } } else { "css:none" }]}));
+                    "filters": [{"kind": "html", "action": action, "value": outer_value, "inner": inner, "tree": path, "css": css}], "mode": 3, "values": [], "expect": bytes_json(expected.as_bytes()),
+                    "tags": [format!("depth:{}", depth), format!("extra-targets:{}", extra), if with_css { if has_mark_eff { "css:match" } else { "css:nomatch" } } else { "css:none" }, if body_sel { "css:mentions-body" } else { "css:plain" }, if inner.is_null() { "inner:none" } else { "inner:set" }]}));
             }
         }
         "C04" => {
@@ -324,6 +331,35 @@ pub fn generate(prop: &str, seed: u64, thorough: bool) -> Vec<Value> {
                 for _ in 0..nchunkings {
                     let cuts = random_cuts(&mut rng, body.len());
                     out.push(json!({"body": bytes_json(body.as_bytes()), "cuts": cuts, "ct": Value::Null, "filters": filters, "mode": 0, "values": values, "expect": null, "tags": tags}));
+                }
+            }
+            // EVERY single cut position of small documents that contain a raw-text element (and every pair of adjacent cuts around each '>')
+            let nsmall = if thorough { 60 } else { 14 };
+            let mut made = 0;
+            let mut guard = 0;
+            while made < nsmall && guard < 4000 {
+                guard += 1;
+                let depth = 1 + rng.below(2);
+                let ch = fillers(&mut rng, 2);
+                let (doc, path) = gen_doc(&mut rng, depth, ch, 0, 0);
+                let body = serialize_root(&doc);
+                if body.len() > 140 || !(body.contains("</title") || body.contains("</script") || body.contains("</textarea") || body.contains("</TITLE") || body.contains("<!--")) { continue; }
+                made += 1;
+                let mut values = Vec::new();
+                let filters = gen_filters(&mut rng, &path, false, &mut values);
+                for c in 1..body.len() {
+                    out.push(json!({"body": bytes_json(body.as_bytes()), "cuts": [c], "ct": Value::Null, "filters": filters, "mode": 0, "values": values, "expect": null, "tags": ["every-single-cut"]}));
+                }
+            }
+            // the empty body: no chunk at all, one empty chunk, two empty chunks (text filters emit at end())
+            for _ in 0..(if thorough { 60 } else { 16 }) {
+                let mut values = Vec::new();
+                let mut filters = if rng.chance(1, 2) { Vec::new() } else { gen_filters(&mut rng, &["html".to_string()], false, &mut values) };
+                let at = rng.below(filters.len() + 1);
+                filters.insert(at, json!({"kind": "text", "action": *rng.pick(&["append_text", "prepend_text", "replace_text"]), "content": "[T]"}));
+                if rng.chance(1, 3) { filters.push(json!({"kind": "text", "action": *rng.pick(&["append_text", "prepend_text", "replace_text"]), "content": "[U]"})); }
+                for cuts in [json!("none"), json!([]), json!([0]), json!([0, 0])] {
+                    out.push(json!({"body": [], "cuts": cuts, "ct": Value::Null, "filters": filters, "mode": 0, "values": values, "expect": null, "tags": ["empty-body"]}));
                 }
             }
         }
